@@ -186,7 +186,7 @@ Proof.
 Qed.
 
 Definition code (d : decision) : N :=
-  match d with Drop => D_DROP | RecordOnly => D_RECORD | RecordAndSample => D_SAMPLE end.
+  match d with Drop => D_DROP | RecordOnly => D_RECORD | RecordAndSample => D_SAMPLE | DOther k => 3 + k end.
 
 Lemma parent_based_follows root psc t :
   let r := should_sample (parent_based root) psc t in
@@ -261,7 +261,9 @@ Proof.
     rewrite Hts, andb_true_r.
     destruct (dec r); cbn [code decision_eqb negb];
       rewrite ?lor1_odd, ?land254_odd, ?lor1_half, ?land254_half by exact Hfp;
-      rewrite ?N.eqb_refl; reflexivity.
+      rewrite ?N.eqb_refl; try reflexivity.
+    unfold D_SAMPLE, D_DROP. replace (3 + k =? 2) with false by lia. replace (3 + k <=? 2) with false by lia.
+    reflexivity.
   - unfold sp, new_span. fold psc. cbn [sres sc tid]. reflexivity.
   - unfold sp, new_span. fold psc. cbn [asked_ids].
     change (tid_valid (tid psc)) with (negb (zero (tid psc))). now rewrite negb_involutive.
